@@ -7,7 +7,7 @@ from lib.coqterm import cbytes, cbool, cN, cnat, clist, hx, unhx
 
 ID = "C25"
 QUICK_N = 2000
-THOROUGH_N = 30000
+THOROUGH_N = 10000
 SHARD = 150
 COQ_PRELUDE = "From MV Require Import Model.DnsNames Model.DnsMessage.\n"
 RULE = ("45% wire messages built by a compressing DNS writer (names from a label pool, pointers to earlier "
